@@ -548,6 +548,7 @@ def run(check):
     else:
       r_e.violate('send without queue check', sdn, None, 'sendDatapointsNow does not call factory.checkQueue() after sending: '
                   'an orderly stop waiting for the queue to drain never completes', construct='self.factory.checkQueue()')
+  rule_route_live(check, cx, check.rule('R-C07-route-live', 2, 'every datapoint is routed by the router as it is now (no route memo on the manager)'))
 
 
 def _callers_of(cx, fn, typed_only=False):
@@ -562,3 +563,14 @@ def _callers_of(cx, fn, typed_only=False):
         if any(k.key == fn.key for k, _ in cs):
           out.append(cx.repo.enclosing_function(f.module, c) or f)
   return out
+
+
+def rule_route_live(check, cx, rule):
+  """the manager asks the router for every datapoint: getFactories / sendDatapoint keep no memo of earlier routing decisions.
+  A destination declared down removes itself from the router (CarbonClientFactory.destinationDown) without the manager
+  hearing of it, so a remembered route sends re-injected datapoints back into the queue that is about to be cleared."""
+  from .c05 import rule_pure
+  mgr = check.repo.cls('carbon.client', 'CarbonClientManager')
+  fns = [mgr.methods[k] for k in ('getFactories', 'sendDatapoint') if mgr is not None and k in mgr.methods]
+  if rule.require(len(fns) == 2, 'CarbonClientManager.getFactories / sendDatapoint not found'):
+    rule_pure(check, rule, fns)
